@@ -18,6 +18,20 @@ def run(tier, seed):
         for k in ks:
             recipes.append({"fn": "typing", "cls": cspec, "seq": gen.rotate(s, k), "twin": {"by": "rc"}})
         recipes.append({"fn": "typing", "cls": cspec, "seq": gen.rotate(gen.mutate(s, rng), rng.randrange(n)), "twin": {"by": "rc"}})
+        # the other strand as a shallow copy of the typed record with the sequence replaced
+        recipes.append({"fn": "typing", "cls": cspec, "seq": gen.rotate(s, rng.randrange(n)), "twin": {"by": "rc", "via": "copy"}})
+        # one recognition site spelled in mixed case (GGTctc), the rest of the plasmid uniformly
+        from .. import classes as _cl
+        site = str(_cl.build(cspec).cutter.site)
+        up_ = s.upper()
+        hits = [i for i in range(n) if (up_ + up_)[i:i + len(site)] in (site, __import__("harness.dna", fromlist=["x"]).rc(site))]
+        if hits:
+            h = rng.choice(hits)
+            letters = list(s.upper() if rng.random() < 0.5 else s.lower())
+            for d in range(len(site)):
+                j = (h + d) % n
+                letters[j] = letters[j].lower() if rng.random() < 0.5 else letters[j].upper()
+            recipes.append({"fn": "typing", "cls": cspec, "seq": gen.rotate("".join(letters), rng.randrange(n)), "twin": {"by": "rc"}})
         # ambiguity codes inside the record (N, R/Y, B/V, ...): whatever the class does with them, it does on both strands
         amb = s
         for _ in range(rng.randint(1, 2)):
